@@ -35,7 +35,12 @@ def main():
         print(f"CHECKER-ERROR property={a.prop}")
         sys.exit(3)
     os.makedirs(os.path.join(run.VERIF, "evidence"), exist_ok=True)
-    with open(os.path.join(run.VERIF, "evidence", f"{a.prop}.json"), "w") as f:
+    # evidence is only written for runs against the real tree; scratch runs (--repo) leave it alone
+    ev_path = os.path.join(run.VERIF, "evidence", f"{a.prop}.json")
+    if os.path.realpath(os.environ.get("VERIF_REPO", "/repo")) != "/repo":
+        ev_path = os.path.join(run.VERIF, "out", a.prop, "evidence-scratch.json")
+        os.makedirs(os.path.dirname(ev_path), exist_ok=True)
+    with open(ev_path, "w") as f:
         json.dump(ev, f, indent=1, default=str)
     cov = ev["coverage"]
     for line in r.lines:
